@@ -1086,3 +1086,15 @@ mod tests {
         assert!(extract_next_batch(&mut blocks_deque, max_size).is_none());
     }
 }
+
+/// Verification hooks (feature `verif`).
+#[cfg(feature = "verif")]
+pub mod verif_hooks {
+    use super::*;
+
+    /// Run the private batching step once; returns the sizes of the blocks in the extracted batch
+    /// (`None` when no blocks are left). Oversized heads are discarded from `blocks` as a side effect.
+    pub fn extract_next_batch_sizes(blocks: &mut VecDeque<(Cid, Vec<u8>)>, max_batch_size: usize) -> Option<Vec<usize>> {
+        extract_next_batch(blocks, max_batch_size).map(|batch| batch.map(|(_, block)| block.len()).collect())
+    }
+}
